@@ -3243,6 +3243,654 @@ fn space_routes(ctx: &Ctx) {
     sp.done(true, &format!("{} texts x {} routes; {n_files} files", texts.len(), ROUTES.len()));
 }
 
+//============ limits are per element: long VALID documents, generated =======
+
+/// Kinds of elements a generated document is made of.
+#[derive(Clone, Copy, Debug, PartialEq, Eq)]
+enum LK { Publish, Update, Withdraw, NSnapshot, NDelta }
+
+/// Which element kinds follow each other.
+#[derive(Clone, Copy, Debug, PartialEq, Eq)]
+enum RunPat {
+    /// a run of one kind
+    Only(LK),
+    /// publish, update, withdraw, publish, ...
+    Robin,
+    /// a run of `run` with a single `other` element in the middle
+    Amid { run: LK, other: LK },
+    /// notification: a run of delta elements with the one snapshot element
+    /// first (0), in the middle (1) or last (2)
+    SnapAt(u8),
+}
+
+impl RunPat {
+    fn show(self) -> String {
+        let n = |k: LK| match k { LK::Publish => "publish", LK::Update => "update", LK::Withdraw => "withdraw", LK::NSnapshot => "snapshot", LK::NDelta => "delta" };
+        match self {
+            RunPat::Only(k) => format!("{}-only", n(k)),
+            RunPat::Robin => "publish,update,withdraw-cycling".into(),
+            RunPat::Amid { run, other } => format!("{}-run-with-one-{}-in-the-middle", n(run), n(other)),
+            RunPat::SnapAt(w) => format!("delta-run-with-the-snapshot-element-{}", ["first", "in-the-middle", "last"][w as usize]),
+        }
+    }
+}
+
+/// Where the octets of an element are.
+#[derive(Clone, Copy, Debug, PartialEq, Eq)]
+enum Carrier { Content, Uri, GapSpace, GapComment, InnerSpace }
+
+impl Carrier {
+    fn name(self) -> &'static str {
+        match self {
+            Carrier::Content => "object-content", Carrier::Uri => "uri-attribute", Carrier::GapSpace => "white-space-before-each-element",
+            Carrier::GapComment => "comment-before-each-element", Carrier::InnerSpace => "white-space-inside-each-element",
+        }
+    }
+}
+
+/// How an element is spelled.
+#[derive(Clone, Copy, Debug, PartialEq, Eq)]
+enum Form {
+    /// as `write_xml` spells it; objects of 0..4 octets cycling unless the content is the carrier
+    Written,
+    /// as `write_xml` spells it, every object empty
+    Empty,
+    /// the other spelling: publish elements self-closing (empty objects),
+    /// withdraw and notification entries as a start tag / end tag pair
+    Alt,
+}
+
+impl Form {
+    fn name(self) -> &'static str { match self { Form::Written => "as-written", Form::Empty => "as-written-with-empty-objects", Form::Alt => "self-closing-publish/paired-withdraw-and-entries" } }
+}
+
+/// Repeated material, 64 KiB each.
+struct Blocks { space: Vec<u8>, p: Vec<u8>, c: Vec<u8>, data: Vec<u8>, b64: Vec<u8> }
+
+const DATA_PERIOD: usize = 3072;
+
+impl Blocks {
+    fn new() -> Self {
+        use base64::Engine as _;
+        let data = big_data(DATA_PERIOD);
+        let b64 = base64::engine::general_purpose::STANDARD.encode(&data).into_bytes().repeat(16);
+        Blocks { space: vec![b' '; 65536], p: vec![b'p'; 65536], c: vec![b'c'; 65536], data, b64 }
+    }
+}
+
+enum Part<'a> { Lit(Vec<u8>), Rep(&'a [u8], u64) }
+
+impl Part<'_> {
+    fn len(&self) -> u64 { match self { Part::Lit(v) => v.len() as u64, Part::Rep(_, n) => *n } }
+}
+
+/// A document described by a handful of numbers: header, `n` elements whose
+/// kind, URI, hash and content are functions of the element index, trailer.
+/// With carrier `Content` or `Uri` (and, for a notification, the snapshot
+/// element first) the octets are exactly what `write_xml` gives for the
+/// value; the other carriers put white space or a comment around elements.
+#[derive(Clone, Debug)]
+struct LongDoc { kind: Kind, pat: RunPat, carrier: Carrier, form: Form, bulk: u64, n: u64, over: Option<(u64, u64)> }
+
+const LONG_SERIAL: u64 = 77;
+
+fn hex_into(out: &mut Vec<u8>, b: &[u8]) {
+    for x in b { out.push(b"0123456789abcdef"[(x >> 4) as usize]); out.push(b"0123456789abcdef"[(x & 15) as usize]) }
+}
+
+impl LongDoc {
+    fn limit(&self) -> u64 { if self.kind == Kind::Notification { HEADER_LIMIT } else { FILE_LIMIT } }
+    fn kind_of(&self, i: u64) -> LK {
+        match self.pat {
+            RunPat::Only(k) => k,
+            RunPat::Robin => [LK::Publish, LK::Update, LK::Withdraw][(i % 3) as usize],
+            RunPat::Amid { run, other } => if i == self.n / 2 { other } else { run },
+            RunPat::SnapAt(w) => if i == self.snap_at(w) { LK::NSnapshot } else { LK::NDelta },
+        }
+    }
+    fn snap_at(&self, w: u8) -> u64 { match w { 0 => 0, 1 => self.n / 2, _ => self.n - 1 } }
+    fn bulk_of(&self, i: u64) -> u64 { match self.over { Some((j, b)) if j == i => b, _ => self.bulk } }
+    fn data_len(&self, i: u64) -> u64 { if self.carrier == Carrier::Content { self.bulk_of(i) } else if self.form == Form::Written { i % 5 } else { 0 } }
+    fn pad_len(&self, i: u64) -> u64 { if self.carrier == Carrier::Uri { self.bulk_of(i) } else { 0 } }
+    fn uri(&self, i: u64) -> String {
+        let pad = "p".repeat(self.pad_len(i) as usize);
+        match self.kind_of(i) {
+            LK::NSnapshot => format!("https://h.example/{pad}{i:08}/snapshot.xml"),
+            LK::NDelta => format!("https://h.example/{pad}{i:08}/delta.xml"),
+            _ => format!("rsync://h.example/m/{pad}{i:08}.roa"),
+        }
+    }
+    fn hash(&self, i: u64) -> [u8; 32] {
+        let x = (i + 1).wrapping_mul(0x9E37_79B9_7F4A_7C15);
+        let mut h = [0u8; 32];
+        for (j, o) in h.iter_mut().enumerate() { *o = (x >> (8 * (j % 8))) as u8 ^ (j as u8).wrapping_mul(29) }
+        h
+    }
+    fn delta_serial(&self, i: u64) -> u64 { 10_000_000 + i }
+    fn data_prefix(i: u64) -> [u8; 6] { let b = i.to_be_bytes(); [b[2], b[3], b[4], b[5], b[6], b[7]] }
+    /// The content of object `i` (small documents only).
+    fn data(&self, i: u64, b: &Blocks) -> Vec<u8> {
+        let p = Self::data_prefix(i);
+        (0..self.data_len(i) as usize).map(|j| if j < 6 { p[j] } else { b.data[(j - 6) % DATA_PERIOD] }).collect()
+    }
+    /// First offset at which `chunk`, found at offset `off` of object `i`, is not the expected content.
+    fn data_mismatch(i: u64, off: u64, chunk: &[u8], b: &Blocks) -> Option<u64> {
+        let p = Self::data_prefix(i);
+        let (mut pos, mut k) = (off, 0usize);
+        while k < chunk.len() {
+            if pos < 6 { if chunk[k] != p[pos as usize] { return Some(pos) } pos += 1; k += 1; continue }
+            let bo = ((pos - 6) % DATA_PERIOD as u64) as usize;
+            let seg = (DATA_PERIOD - bo).min(chunk.len() - k);
+            if chunk[k..k + seg] != b.data[bo..bo + seg] {
+                let d = (0..seg).find(|&d| chunk[k + d] != b.data[bo + d]).unwrap_or(0);
+                return Some(pos + d as u64)
+            }
+            pos += seg as u64; k += seg;
+        }
+        None
+    }
+    fn root(&self) -> &'static str { self.kind.name() }
+    fn header(&self) -> Vec<u8> {
+        format!("<{} xmlns=\"http://www.ripe.net/rpki/rrdp\" version=\"1\" session_id=\"{}\" serial=\"{LONG_SERIAL}\">", self.root(), sessions()[2]).into_bytes()
+    }
+    fn trailer(&self) -> Vec<u8> { format!("\n</{}>", self.root()).into_bytes() }
+    /// Element `i` with what precedes it, as literal and repeated parts.
+    fn item<'a>(&self, i: u64, b: &'a Blocks, out: &mut Vec<Part<'a>>) {
+        use base64::Engine as _;
+        use std::io::Write as _;
+        let enc = &base64::engine::general_purpose::STANDARD;
+        let k = self.kind_of(i);
+        let bulk = self.bulk_of(i);
+        let mut lit: Vec<u8> = Vec::with_capacity(256);
+        macro_rules! rep { ($block:expr, $len:expr) => {{
+            let len: u64 = $len;
+            if len > 0 {
+                if !lit.is_empty() { out.push(Part::Lit(std::mem::take(&mut lit))) }
+                out.push(Part::Rep($block, len))
+            }
+        }} }
+        match self.carrier {
+            Carrier::GapSpace => rep!(&b.space, bulk),
+            Carrier::GapComment => { lit.extend_from_slice(b"\n  <!--"); rep!(&b.c, bulk); lit.extend_from_slice(b"-->") }
+            _ => {}
+        }
+        let pad = self.pad_len(i);
+        let hash = self.hash(i);
+        match k {
+            LK::Publish | LK::Update => {
+                lit.extend_from_slice(b"\n  <publish uri=\"rsync://h.example/m/");
+                rep!(&b.p, pad);
+                let _ = write!(lit, "{i:08}.roa\"");
+                if k == LK::Update { lit.extend_from_slice(b" hash=\""); hex_into(&mut lit, &hash); lit.push(b'"') }
+                if self.form == Form::Alt { lit.extend_from_slice(b"/>"); out.push(Part::Lit(lit)); return }
+                lit.extend_from_slice(b">\n    ");
+                if self.carrier == Carrier::InnerSpace { rep!(&b.space, bulk) }
+                let len = self.data_len(i);
+                let p = Self::data_prefix(i);
+                if len <= 6 {
+                    lit.extend_from_slice(enc.encode(&p[..len as usize]).as_bytes())
+                } else {
+                    lit.extend_from_slice(enc.encode(p).as_bytes());
+                    let groups = (len - 6) / 3;
+                    rep!(&b.b64, groups * 4);
+                    let r = ((len - 6) % 3) as usize;
+                    if r > 0 { let at = ((groups * 3) % DATA_PERIOD as u64) as usize; lit.extend_from_slice(enc.encode(&b.data[at..at + r]).as_bytes()) }
+                }
+                lit.extend_from_slice(b"\n  </publish>");
+            }
+            LK::Withdraw => {
+                lit.extend_from_slice(b"\n  <withdraw uri=\"rsync://h.example/m/");
+                rep!(&b.p, pad);
+                let _ = write!(lit, "{i:08}.roa\" hash=\"");
+                hex_into(&mut lit, &hash);
+                lit.extend_from_slice(if self.form == Form::Alt { b"\"></withdraw>" } else { b"\"/>" });
+            }
+            LK::NSnapshot | LK::NDelta => {
+                if k == LK::NSnapshot { lit.extend_from_slice(b"\n  <snapshot uri=\"https://h.example/") }
+                else { let _ = write!(lit, "\n  <delta serial=\"{}\" uri=\"https://h.example/", self.delta_serial(i)); }
+                rep!(&b.p, pad);
+                let _ = write!(lit, "{i:08}/{}.xml\" hash=\"", if k == LK::NSnapshot { "snapshot" } else { "delta" });
+                hex_into(&mut lit, &hash);
+                lit.extend_from_slice(if self.form != Form::Alt { b"\"/>" } else if k == LK::NSnapshot { b"\"></snapshot>" } else { b"\"></delta>" });
+            }
+        }
+        out.push(Part::Lit(lit));
+    }
+    fn item_len(&self, i: u64, b: &Blocks) -> u64 {
+        let mut parts = Vec::new();
+        self.item(i, b, &mut parts);
+        parts.iter().map(|p| p.len()).sum()
+    }
+    /// A document of this shape whose elements add up to at least `target` octets.
+    fn sized(kind: Kind, pat: RunPat, carrier: Carrier, form: Form, bulk: u64, target: u64, b: &Blocks) -> LongDoc {
+        let mut d = LongDoc { kind, pat, carrier, form, bulk, n: 30, over: None };
+        let probe = LongDoc { pat: match pat { RunPat::Amid { run, .. } => RunPat::Only(run), RunPat::SnapAt(_) => RunPat::Only(LK::NDelta), p => p }, ..d.clone() };
+        let sum: u64 = (0..30).map(|i| probe.item_len(i, b)).sum();
+        d.n = (target * 30).div_ceil(sum) + matches!(pat, RunPat::Amid { .. } | RunPat::SnapAt(_)) as u64;
+        d
+    }
+    /// The value the document stands for, written by the library (small documents only).
+    fn written_by_library(&self, b: &Blocks) -> Result<Vec<u8>, String> {
+        let mut xml = Vec::new();
+        let h = |i: u64| Hash::from(self.hash(i));
+        match self.kind {
+            Kind::Snapshot => Snapshot::new(sessions()[2], LONG_SERIAL, (0..self.n).map(|i| PublishElement::new(rsync(&self.uri(i)), Bytes::from(self.data(i, b)))).collect()).write_xml(&mut xml),
+            Kind::Delta => Delta::new(sessions()[2], LONG_SERIAL, (0..self.n).map(|i| match self.kind_of(i) {
+                LK::Publish => PublishElement::new(rsync(&self.uri(i)), Bytes::from(self.data(i, b))).into(),
+                LK::Update => UpdateElement::new(rsync(&self.uri(i)), h(i), Bytes::from(self.data(i, b))).into(),
+                _ => WithdrawElement::new(rsync(&self.uri(i)), h(i)).into(),
+            }).collect()).write_xml(&mut xml),
+            Kind::Notification => {
+                let at = (0..self.n).find(|&i| self.kind_of(i) == LK::NSnapshot).ok_or("no snapshot element")?;
+                NotificationFile::new(sessions()[2], LONG_SERIAL, UriAndHash::new(https(&self.uri(at)), h(at)),
+                    (0..self.n).filter(|&i| i != at).map(|i| DeltaInfo::new(self.delta_serial(i), https(&self.uri(i)), h(i))).collect()).write_xml(&mut xml)
+            }
+        }.map_err(|e| e.to_string())?;
+        Ok(xml)
+    }
+}
+
+/// The document as a stream; nothing but the element being read exists at any time.
+struct LongGen<'a> { doc: &'a LongDoc, b: &'a Blocks, next: u64, parts: Vec<Part<'a>>, pi: usize, off: u64, pos: u64, max_item: u64, over_start: Option<u64> }
+
+impl<'a> LongGen<'a> {
+    fn new(doc: &'a LongDoc, b: &'a Blocks) -> Self { LongGen { doc, b, next: 0, parts: Vec::new(), pi: 0, off: 0, pos: 0, max_item: 0, over_start: None } }
+    fn load(&mut self) -> bool {
+        self.parts.clear(); self.pi = 0; self.off = 0;
+        let n = self.doc.n;
+        if self.next == 0 { self.parts.push(Part::Lit(self.doc.header())) }
+        else if self.next <= n {
+            let i = self.next - 1;
+            self.doc.item(i, self.b, &mut self.parts);
+            let len: u64 = self.parts.iter().map(|p| p.len()).sum();
+            if matches!(self.doc.over, Some((j, _)) if j == i) { self.over_start = Some(self.pos) } else { self.max_item = self.max_item.max(len) }
+        }
+        else if self.next == n + 1 { self.parts.push(Part::Lit(self.doc.trailer())) }
+        else { return false }
+        self.next += 1;
+        true
+    }
+}
+
+impl Read for LongGen<'_> {
+    fn read(&mut self, buf: &mut [u8]) -> io::Result<usize> {
+        let mut n = 0usize;
+        while n < buf.len() {
+            if self.pi >= self.parts.len() { if !self.load() { break } continue }
+            let room = buf.len() - n;
+            let (k, done) = match &self.parts[self.pi] {
+                Part::Lit(v) => {
+                    let src = &v[self.off as usize..];
+                    let k = src.len().min(room);
+                    buf[n..n + k].copy_from_slice(&src[..k]);
+                    (k, self.off as usize + k == v.len())
+                }
+                Part::Rep(block, len) => {
+                    let bo = (self.off % block.len() as u64) as usize;
+                    let k = ((block.len() - bo) as u64).min(len - self.off).min(room as u64) as usize;
+                    buf[n..n + k].copy_from_slice(&block[bo..bo + k]);
+                    (k, self.off + k as u64 == *len)
+                }
+            };
+            n += k; self.off += k as u64; self.pos += k as u64;
+            if done { self.pi += 1; self.off = 0 }
+        }
+        Ok(n)
+    }
+}
+
+/// Checks every callback against the document's formulas as it arrives.
+struct LongCheck<'a> { doc: &'a LongDoc, b: &'a Blocks, idx: u64, counts: [u64; 3], meta: Vec<(Uuid, u64)>, wrong: Option<String>, buf: Vec<u8> }
+
+impl<'a> LongCheck<'a> {
+    fn new(doc: &'a LongDoc, b: &'a Blocks) -> Self { LongCheck { doc, b, idx: 0, counts: [0; 3], meta: Vec::new(), wrong: None, buf: vec![0u8; 65536] } }
+    fn note(&mut self, f: impl FnOnce() -> String) { if self.wrong.is_none() { self.wrong = Some(f()) } }
+    fn element(&mut self, got: LK, uri: &str, hash: Option<&[u8]>) {
+        let i = self.idx;
+        self.counts[match got { LK::Publish => 0, LK::Update => 1, _ => 2 }] += 1;
+        if i >= self.doc.n { return self.note(|| format!("element #{i} reported, the document has {i} elements")) }
+        let want = self.doc.kind_of(i);
+        if want != got { return self.note(|| format!("element #{i} is {want:?}, reported as {got:?}")) }
+        let want_uri = self.doc.uri(i);
+        if uri != want_uri { return self.note(|| format!("element #{i}: uri {} reported as {}", trunc(&want_uri, 80), trunc(uri, 80))) }
+        if let Some(h) = hash { if h != self.doc.hash(i) { let w = hex(&self.doc.hash(i)); self.note(|| format!("element #{i}: hash {w} reported as {}", hex(h))) } }
+    }
+    fn content(&mut self, rd: &mut ObjectReader) -> Result<(), ProcessError> {
+        let i = self.idx;
+        let want = self.doc.data_len(i);
+        let mut off = 0u64;
+        let mut buf = std::mem::take(&mut self.buf);
+        loop {
+            let n = match rd.read(&mut buf) { Ok(n) => n, Err(e) => { self.buf = buf; return Err(e.into()) } };
+            if n == 0 { break }
+            if i < self.doc.n { if let Some(at) = LongDoc::data_mismatch(i, off, &buf[..n], self.b) { self.note(|| format!("element #{i}: content differs at octet {at} of {want}")) } }
+            off += n as u64;
+        }
+        self.buf = buf;
+        if i < self.doc.n && off != want { self.note(|| format!("element #{i}: content of {want} octets reported with {off} octets")) }
+        Ok(())
+    }
+}
+
+impl ProcessSnapshot for LongCheck<'_> {
+    type Err = ProcessError;
+    fn meta(&mut self, s: Uuid, n: u64) -> Result<(), ProcessError> { self.meta.push((s, n)); Ok(()) }
+    fn publish(&mut self, uri: uri::Rsync, data: &mut ObjectReader) -> Result<(), ProcessError> {
+        self.element(LK::Publish, uri.as_str(), None);
+        let r = self.content(data);
+        self.idx += 1;
+        r
+    }
+}
+
+impl ProcessDelta for LongCheck<'_> {
+    type Err = ProcessError;
+    fn meta(&mut self, s: Uuid, n: u64) -> Result<(), ProcessError> { self.meta.push((s, n)); Ok(()) }
+    fn publish(&mut self, uri: uri::Rsync, hash: Option<Hash>, data: &mut ObjectReader) -> Result<(), ProcessError> {
+        self.element(if hash.is_some() { LK::Update } else { LK::Publish }, uri.as_str(), hash.as_ref().map(|h| h.as_slice()));
+        let r = self.content(data);
+        self.idx += 1;
+        r
+    }
+    fn withdraw(&mut self, uri: uri::Rsync, hash: Hash) -> Result<(), ProcessError> {
+        self.element(LK::Withdraw, uri.as_str(), Some(hash.as_slice()));
+        self.idx += 1;
+        Ok(())
+    }
+}
+
+#[derive(Clone, Copy, Debug, PartialEq, Eq)]
+enum LRoute { Process, Parse, LimitedAll, LimitedZero }
+
+impl LRoute {
+    fn name(self, kind: Kind) -> &'static str {
+        match (self, kind) {
+            (LRoute::Process, Kind::Snapshot) => "ProcessSnapshot::process", (LRoute::Process, Kind::Delta) => "ProcessDelta::process",
+            (LRoute::Parse, Kind::Snapshot) => "Snapshot::parse", (LRoute::Parse, Kind::Delta) => "Delta::parse",
+            (LRoute::LimitedAll, _) => "NotificationFile::parse_limited(number of deltas)", (LRoute::LimitedZero, _) => "NotificationFile::parse_limited(0)",
+            (_, Kind::Notification) => "NotificationFile::parse",
+        }
+    }
+}
+
+struct LongOut {
+    pulled: u64, max_item: u64, over_start: Option<u64>,
+    /// outer Err: panic; inner Err: the parser's error
+    result: Result<Result<(), String>, String>,
+    wrong: Option<String>, seen: u64, counts: [u64; 3],
+}
+
+fn run_long(doc: &LongDoc, b: &Blocks, route: LRoute, bufcap: usize) -> LongOut {
+    let mut src = LongGen::new(doc, b);
+    let mut chk = LongCheck::new(doc, b);
+    let sess = sessions()[2];
+    let result = guard(|| -> Result<(), String> {
+        let rd = BufReader::with_capacity(bufcap, &mut src);
+        let chk = &mut chk;
+        match (doc.kind, route) {
+            (Kind::Snapshot, LRoute::Process) => {
+                <LongCheck as ProcessSnapshot>::process(chk, rd).map_err(|e| show_err(&e))?;
+                if chk.meta != [(sess, LONG_SERIAL)] { let m = format!("{:?}", chk.meta); chk.note(|| format!("meta reported {m}")) }
+            }
+            (Kind::Delta, LRoute::Process) => {
+                <LongCheck as ProcessDelta>::process(chk, rd).map_err(|e| show_err(&e))?;
+                if chk.meta != [(sess, LONG_SERIAL)] { let m = format!("{:?}", chk.meta); chk.note(|| format!("meta reported {m}")) }
+            }
+            (Kind::Snapshot, _) => {
+                let v = Snapshot::parse(rd).map_err(|e| show_err(&e))?;
+                if v.session_id() != sess || v.serial() != LONG_SERIAL { chk.note(|| format!("session {} serial {}", v.session_id(), v.serial())) }
+                for e in v.elements() {
+                    chk.element(LK::Publish, e.uri().as_str(), None);
+                    let (i, want) = (chk.idx, doc.data_len(chk.idx));
+                    if i < doc.n && (e.data().len() as u64 != want || LongDoc::data_mismatch(i, 0, e.data(), b).is_some()) { chk.note(|| format!("element #{i}: content of {want} octets differs ({} octets)", e.data().len())) }
+                    chk.idx += 1;
+                }
+            }
+            (Kind::Delta, _) => {
+                let v = Delta::parse(rd).map_err(|e| show_err(&e))?;
+                if v.session_id() != sess || v.serial() != LONG_SERIAL { chk.note(|| format!("session {} serial {}", v.session_id(), v.serial())) }
+                for e in v.elements() {
+                    let data = match e {
+                        DeltaElement::Publish(p) => { chk.element(LK::Publish, p.uri().as_str(), None); Some(p.data()) }
+                        DeltaElement::Update(u) => { chk.element(LK::Update, u.uri().as_str(), Some(u.hash().as_slice())); Some(u.data()) }
+                        DeltaElement::Withdraw(w) => { chk.element(LK::Withdraw, w.uri().as_str(), Some(w.hash().as_slice())); None }
+                    };
+                    let (i, want) = (chk.idx, doc.data_len(chk.idx));
+                    if let Some(d) = data { if i < doc.n && (d.len() as u64 != want || LongDoc::data_mismatch(i, 0, d, b).is_some()) { chk.note(|| format!("element #{i}: content of {want} octets differs ({} octets)", d.len())) } }
+                    chk.idx += 1;
+                }
+            }
+            (Kind::Notification, _) => {
+                let n_deltas = doc.n as usize - 1;
+                let v = match route {
+                    LRoute::LimitedAll => NotificationFile::parse_limited(rd, n_deltas),
+                    LRoute::LimitedZero => NotificationFile::parse_limited(rd, 0),
+                    _ => NotificationFile::parse(rd),
+                }.map_err(|e| show_err(&e))?;
+                if v.session_id() != sess || v.serial() != LONG_SERIAL { chk.note(|| format!("session {} serial {}", v.session_id(), v.serial())) }
+                let at = (0..doc.n).find(|&i| doc.kind_of(i) == LK::NSnapshot).unwrap_or(0);
+                if v.snapshot().uri().as_str() != doc.uri(at) || v.snapshot().hash().as_slice() != doc.hash(at) { chk.note(|| format!("snapshot entry (element #{at}) reported as ({}, {})", trunc(v.snapshot().uri().as_str(), 80), v.snapshot().hash())) }
+                chk.idx = 1;
+                if route == LRoute::LimitedZero && n_deltas > 0 {
+                    if v.delta_status().is_ok() || !v.deltas().is_empty() { chk.note(|| format!("parse_limited(0) of {n_deltas} deltas does not report an oversized list")) }
+                    chk.idx = doc.n;
+                } else {
+                    if v.delta_status().is_err() { chk.note(|| "delta list reported oversized".to_string()) }
+                    let want: Vec<u64> = (0..doc.n).filter(|&i| i != at).collect();
+                    if v.deltas().len() != want.len() { chk.note(|| format!("{} delta entries reported, the document has {}", v.deltas().len(), want.len())) }
+                    for (d, &i) in v.deltas().iter().zip(&want) {
+                        if d.serial() != doc.delta_serial(i) || d.uri().as_str() != doc.uri(i) || d.hash().as_slice() != doc.hash(i) {
+                            chk.note(|| format!("element #{i}: delta entry reported as ({}, {}, {})", d.serial(), trunc(d.uri().as_str(), 80), d.hash()))
+                        }
+                    }
+                    chk.idx = 1 + v.deltas().len() as u64;
+                }
+            }
+        }
+        Ok(())
+    });
+    LongOut { pulled: src.pos, max_item: src.max_item, over_start: src.over_start, result, wrong: chk.wrong, seen: chk.idx, counts: chk.counts }
+}
+
+#[derive(Clone, Copy, Debug, PartialEq, Eq)]
+enum LRole { Twin, Long(u64), Control }
+
+struct LCase { shape: usize, doc: LongDoc, route: LRoute, bufcap: usize, role: LRole }
+
+fn space_limits(ctx: &Ctx) {
+    let thorough = ctx.tier.is_thorough();
+    let sp = ctx.space("limits.long_valid_documents",
+        "the limits are per element: VALID documents from a generator (never materialised) in which no element, counted with the white space / comment before it, comes near its limit (100,000,000 octets for publish / withdraw elements, 1,000,000 for the entries of a notification) while the elements together exceed 1.2 x and 2.5 x that limit. file type x run of element kinds (one kind only: publish, update, withdraw; the three cycling; a run of one kind with a single element of another kind in the middle; notification: delta entries with the snapshot entry first / in the middle / last) x where the octets are (object content, URI attribute, white space before each element, a comment before each element, white space inside each element) x spelling (as write_xml spells the elements, with objects of 0..4 octets cycling; the same with every object empty; publish elements self-closing and withdraw elements / notification entries as start-tag end-tag pairs) x element size (1 kB, 1 MB, 40 MB under the 100 MB limit; ~150 octets, 10 kB, 400 kB under the 1 MB limit) x total (1.2 x, 2.5 x limit) x route (process with a checking processor; Snapshot::parse / Delta::parse for the 1 MB x 1.2 documents in thorough; parse, parse_limited(all), parse_limited(0)) x BufReader capacity. Element i has URI <dir>/<pad><i, 8 digits>, hash and content (6 octets of i, then a fixed 3072-octet block repeated) computed from i; with content / URI as the carrier the stream is octet for octet what write_xml gives for the value (compared on small instances, recorded). Oracles: the document is accepted whenever the same document with 2-3 elements is; every element is reported once, in order, with its URI, hash and every content octet. Controls: the same runs with ONE element of 1.2 x the limit at the start / middle / end must be given up within start of that element + limit + one buffer. quick: 12 documents under the 100 MB limit (+ 1 control), everything under the 1 MB limit; thorough: the full product (the other spellings not at 40 MB and not around a single odd element). non-trivial = documents longer than the limit whose longest element is shorter than the limit (measured by the generator)");
+    let b = Blocks::new();
+    let quick_heavy: [(Kind, RunPat, Carrier, Form, u64, u64); 12] = [
+        (Kind::Snapshot, RunPat::Only(LK::Publish), Carrier::Content, Form::Written, 1_000_000, 12),
+        (Kind::Snapshot, RunPat::Only(LK::Publish), Carrier::Uri, Form::Written, 1_000, 12),
+        (Kind::Snapshot, RunPat::Only(LK::Publish), Carrier::Uri, Form::Empty, 1_000, 12),
+        (Kind::Snapshot, RunPat::Only(LK::Publish), Carrier::GapComment, Form::Alt, 1_000_000, 12),
+        (Kind::Delta, RunPat::Only(LK::Publish), Carrier::Content, Form::Written, 1_000, 12),
+        (Kind::Delta, RunPat::Only(LK::Update), Carrier::Content, Form::Written, 1_000_000, 12),
+        (Kind::Delta, RunPat::Only(LK::Update), Carrier::Uri, Form::Alt, 1_000, 12),
+        (Kind::Delta, RunPat::Only(LK::Withdraw), Carrier::Uri, Form::Written, 1_000, 12),
+        (Kind::Delta, RunPat::Only(LK::Withdraw), Carrier::GapSpace, Form::Alt, 1_000_000, 12),
+        (Kind::Delta, RunPat::Robin, Carrier::Content, Form::Written, 1_000_000, 12),
+        (Kind::Delta, RunPat::Robin, Carrier::GapComment, Form::Empty, 1_000_000, 12),
+        (Kind::Delta, RunPat::Amid { run: LK::Withdraw, other: LK::Publish }, Carrier::Uri, Form::Written, 1_000, 25),
+    ];
+    let quick_control = (Kind::Delta, RunPat::Only(LK::Withdraw), Carrier::Uri, Form::Written, 1_000u64);
+    let all_carriers = [Carrier::Content, Carrier::Uri, Carrier::GapSpace, Carrier::GapComment, Carrier::InnerSpace];
+    let mut cases: Vec<LCase> = Vec::new();
+    let mut shape_names: Vec<String> = Vec::new();
+    let mut written_form: Vec<(usize, LongDoc)> = Vec::new();
+    for kind in [Kind::Snapshot, Kind::Delta, Kind::Notification] {
+        let limit = if kind == Kind::Notification { HEADER_LIMIT } else { FILE_LIMIT };
+        let pats: Vec<RunPat> = match kind {
+            Kind::Snapshot => vec![RunPat::Only(LK::Publish)],
+            Kind::Delta => vec![RunPat::Only(LK::Publish), RunPat::Only(LK::Update), RunPat::Only(LK::Withdraw), RunPat::Robin,
+                RunPat::Amid { run: LK::Withdraw, other: LK::Publish }, RunPat::Amid { run: LK::Publish, other: LK::Withdraw }],
+            Kind::Notification => vec![RunPat::SnapAt(0), RunPat::SnapAt(1), RunPat::SnapAt(2)],
+        };
+        let sizes: [u64; 3] = if kind == Kind::Notification { [0, 10_000, 400_000] } else { [1_000, 1_000_000, 40_000_000] };
+        for pat in pats {
+            let main = match pat { RunPat::Only(k) => k, RunPat::Amid { run, .. } => run, RunPat::Robin => LK::Publish, RunPat::SnapAt(_) => LK::NDelta };
+            for carrier in all_carriers {
+                if matches!(carrier, Carrier::Content | Carrier::InnerSpace) && !matches!(main, LK::Publish | LK::Update) { continue }
+                for (si, &size) in sizes.iter().enumerate() { for form in [Form::Written, Form::Empty, Form::Alt] {
+                    if size == 0 && carrier != Carrier::Uri { continue }           // nothing added: one shape
+                    if carrier == Carrier::Uri && si == 2 && kind != Kind::Notification { continue } // no 40 MB URIs
+                    // the other forms: where the content is not the carrier; Empty only where there are objects; not at 40 MB, not around a single odd element
+                    if form != Form::Written && (matches!(carrier, Carrier::Content | Carrier::InnerSpace) || matches!(pat, RunPat::Amid { .. }) || (si == 2 && kind != Kind::Notification)) { continue }
+                    if form == Form::Empty && !matches!(main, LK::Publish | LK::Update) { continue }
+                    let bulk = if carrier == Carrier::Content { size * 3 / 4 } else { size };
+                    let light = kind == Kind::Notification;
+                    let wanted = |f: u64| thorough || light || quick_heavy.contains(&(kind, pat, carrier, form, size, f));
+                    if !wanted(12) && !wanted(25) { continue }
+                    let shape = shape_names.len();
+                    shape_names.push(format!("{} elements={} spelled={} octets-in={} ~{} per element", kind.name(), pat.show(), form.name(), carrier.name(), size.max(150)));
+                    // the small twin: 3 elements (2 if 3 would come near the limit)
+                    let mut twin = LongDoc { kind, pat, carrier, form, bulk, n: 3, over: None };
+                    if 3 * size > limit * 9 / 10 { twin.n = 2 }
+                    if form != Form::Alt && matches!(carrier, Carrier::Content | Carrier::Uri) && !matches!(pat, RunPat::SnapAt(1 | 2)) {
+                        written_form.push((shape, LongDoc { bulk: bulk.min(5000), n: 7, ..twin.clone() }));
+                    }
+                    cases.push(LCase { shape, doc: twin, route: LRoute::Process, bufcap: 8192, role: LRole::Twin });
+                    for f in [12u64, 25] {
+                        if !wanted(f) { continue }
+                        let doc = LongDoc::sized(kind, pat, carrier, form, bulk, limit / 10 * f, &b);
+                        if light {
+                            for route in [LRoute::Process, LRoute::LimitedAll, LRoute::LimitedZero] {
+                                for bufcap in [64usize, 8192, 65536] {
+                                    if bufcap != 8192 && (route != LRoute::Process || !(thorough || f == 12)) { continue }
+                                    cases.push(LCase { shape, doc: doc.clone(), route, bufcap, role: LRole::Long(f) });
+                                }
+                            }
+                        } else {
+                            cases.push(LCase { shape, doc: doc.clone(), route: LRoute::Process, bufcap: 65536, role: LRole::Long(f) });
+                            if thorough && f == 12 && size == 1_000_000 && matches!(carrier, Carrier::Content | Carrier::GapComment) {
+                                cases.push(LCase { shape, doc: doc.clone(), route: LRoute::Parse, bufcap: 8192, role: LRole::Long(f) });
+                            }
+                        }
+                    }
+                    // controls: one oversized element in the 1.2 x run
+                    let positions: &[u8] = if light { &[0, 1, 2] }
+                        else if thorough && size == 1_000_000 { if matches!(pat, RunPat::Only(_)) { &[1, 2] } else { &[1] } }
+                        else if !thorough && quick_control == (kind, pat, carrier, form, size) { &[1] }
+                        else { &[] };
+                    for &w in positions {
+                        let mut doc = LongDoc::sized(kind, pat, carrier, form, bulk, limit / 10 * 12, &b);
+                        let j = match w { 0 => 0, 1 => doc.n / 2, _ => doc.n - 1 };
+                        if doc.kind_of(j) == LK::Withdraw && matches!(carrier, Carrier::Content | Carrier::InnerSpace) { continue } // nothing to enlarge there
+                        doc.over = Some((j, if carrier == Carrier::Content { limit / 10 * 9 } else { limit / 10 * 12 }));
+                        cases.push(LCase { shape, doc, route: LRoute::Process, bufcap: if light { 8192 } else { 65536 }, role: LRole::Control });
+                    }
+                }}
+            }
+        }
+    }
+    // the no-gap forms are what the library writes: compared on small instances (a fact, not an oracle)
+    let mut identical = 0u64;
+    let mut differing: Vec<String> = Vec::new();
+    for (shape, doc) in &written_form {
+        let mut mine = Vec::new();
+        let _ = LongGen::new(doc, &b).read_to_end(&mut mine);
+        match guard(|| doc.written_by_library(&b)) {
+            Ok(Ok(theirs)) if theirs == mine => identical += 1,
+            _ => differing.push(shape_names[*shape].clone()),
+        }
+    }
+    // heaviest first, all in one parallel sweep; judged afterwards in enumeration order
+    let weight = |c: &LCase| -> u64 {
+        let per = c.doc.bulk.max(150) * if c.doc.carrier == Carrier::Content { 4 } else { 3 } / 3;
+        c.doc.n.saturating_mul(per) + c.doc.over.map_or(0, |_| c.doc.limit())
+    };
+    let mut order: Vec<usize> = (0..cases.len()).collect();
+    order.sort_by_key(|&i| (std::cmp::Reverse(weight(&cases[i])), i));
+    let timing = std::env::var("C09_TIMING").is_ok();
+    let ran: Vec<(usize, LongOut)> = order.par_iter().with_max_len(1).map(|&i| {
+        let c = &cases[i];
+        let t = std::time::Instant::now();
+        let out = run_long(&c.doc, &b, c.route, c.bufcap);
+        if timing && t.elapsed().as_millis() > 300 { eprintln!("[limits] {:.2}s {} n={} {:?} pulled={}", t.elapsed().as_secs_f64(), shape_names[c.shape], c.doc.n, c.role, out.pulled) }
+        (i, out)
+    }).collect();
+    let mut results: Vec<Option<LongOut>> = (0..cases.len()).map(|_| None).collect();
+    for (i, o) in ran { results[i] = Some(o) }
+    let mut twin_ok: Vec<Option<(u64, Result<(), String>)>> = shape_names.iter().map(|_| None).collect();
+    let mut oc: BTreeMap<&'static str, u64> = BTreeMap::new();
+    let (mut nt, mut violated, mut octets, mut elements) = (0u64, 0u64, 0u64, 0u64);
+    let mut longest: (u64, String) = (0, String::new());
+    for (c, o) in cases.iter().zip(&results) {
+        let o = o.as_ref().expect("every document was run");
+        let (doc, limit) = (&c.doc, c.doc.limit());
+        octets += o.pulled; elements += o.seen;
+        let wit = || format!("{}{} x {} elements route={} bufcap={}", shape_names[c.shape],
+            doc.over.map_or(String::new(), |(j, bulk)| format!(" but element #{j} with {bulk} octets there")), doc.n, c.route.name(doc.kind), c.bufcap);
+        let progress = || format!("{} elements had been reported ({} publish, {} update, {} withdraw) and {} octets read", o.seen, o.counts[0], o.counts[1], o.counts[2], o.pulled);
+        let accepted = match &o.result {
+            Err(panic) => { violated += 1; ctx.fail("C09.limits.nopanic", wit(), format!("{panic}; {}", progress())); *oc.entry("panic").or_insert(0) += 1; continue }
+            Ok(r) => r,
+        };
+        let content = |violated: &mut u64| {
+            let missing = if o.seen != doc.n { Some(format!("{} of {} elements reported", o.seen, doc.n)) } else { None };
+            if let Some(d) = o.wrong.clone().or(missing) { *violated += 1; ctx.fail("C09.limits.content", wit(), format!("accepted, but {d}")) }
+        };
+        let class = match c.role {
+            LRole::Twin => {
+                twin_ok[c.shape] = Some((doc.n, accepted.clone()));
+                if accepted.is_ok() { content(&mut violated); "small-twin-accepted" } else { "small-twin-refused" }
+            }
+            LRole::Long(f) => {
+                let twin = twin_ok[c.shape].as_ref().expect("the twin precedes its long documents");
+                if o.pulled > limit && o.max_item < limit { nt += 1 }
+                if o.pulled > longest.0 { longest = (o.pulled, wit()) }
+                match (accepted, &twin.1) {
+                    (Ok(()), _) => { content(&mut violated); if f == 12 { "accepted-at-1.2x-limit" } else { "accepted-at-2.5x-limit" } }
+                    (Err(e), Ok(())) => {
+                        violated += 1;
+                        ctx.fail("C09.limits.per_element", wit(), format!("refused when {}: {}; the longest element so far (with what precedes it) had {} octets, the limit for one element is {limit}; the same document with {} elements is accepted", progress(), trunc(e, 120), o.max_item, twin.0));
+                        "refused-although-every-element-is-below-the-limit"
+                    }
+                    (Err(_), Err(_)) => "refused-like-its-small-twin",
+                }
+            }
+            LRole::Control => {
+                let twin_accepted = twin_ok[c.shape].as_ref().is_some_and(|t| t.1.is_ok());
+                match o.over_start {
+                    None => {
+                        if twin_accepted {
+                            violated += 1;
+                            ctx.fail("C09.limits.per_element", wit(), format!("refused before the oversized element was reached, when {}: {}", progress(), accepted.as_ref().err().map_or("(accepted)".into(), |e| trunc(e, 120))));
+                        }
+                        "refused-before-the-oversized-element"
+                    }
+                    Some(start) => {
+                        let bound = start + limit + c.bufcap as u64;
+                        if o.pulled > bound {
+                            violated += 1;
+                            ctx.fail("C09.limits.bound", wit(), format!("pulled {} octets; allowed: start of the oversized element {start} + limit {limit} + one buffer {} = {bound}; result {:?}", o.pulled, c.bufcap, accepted.as_ref().map_err(|e| trunc(e, 80))));
+                        }
+                        if accepted.is_ok() { "oversized-element-accepted" } else if start > limit { "oversized-element-refused-after-more-than-the-limit-of-valid-elements" } else { "oversized-element-refused" }
+                    }
+                }
+            }
+        };
+        *oc.entry(class).or_insert(0) += 1;
+    }
+    sp.evals(cases.len() as u64);
+    sp.nontrivial(nt);
+    sp.merge_outcomes(&oc);
+    sp.outcomes_n("oracle-violated", violated);
+    sp.set("shapes", json!(shape_names.len()));
+    sp.set("octets_generated", json!(octets));
+    sp.set("elements_reported", json!(elements));
+    sp.set("longest_document", json!({"octets": longest.0, "case": longest.1}));
+    sp.set("written_form_shapes_octet_identical_to_write_xml", json!({"identical": identical, "of": written_form.len(), "differing": differing}));
+    sp.sample_str(|| { let d = LongDoc { kind: Kind::Delta, pat: RunPat::Robin, carrier: Carrier::Content, form: Form::Written, bulk: 8, n: 3, over: None }; let mut v = Vec::new(); let _ = LongGen::new(&d, &b).read_to_end(&mut v); text(&v) });
+    sp.sample_str(|| { let d = LongDoc { kind: Kind::Notification, pat: RunPat::SnapAt(1), carrier: Carrier::GapComment, form: Form::Alt, bulk: 5, n: 3, over: None }; let mut v = Vec::new(); let _ = LongGen::new(&d, &b).read_to_end(&mut v); text(&v) });
+    let count = |r: fn(&LRole) -> bool| cases.iter().filter(|c| r(&c.role)).count();
+    sp.done(true, &format!("{} shapes: {} long documents, {} small twins, {} controls with one oversized element", shape_names.len(),
+        count(|r| matches!(r, LRole::Long(_))), count(|r| matches!(r, LRole::Twin)), count(|r| matches!(r, LRole::Control))));
+}
+
 fn main() {
     // before anything is parsed: every log record the library emits is formatted from now on
     let logger_ok = log::set_logger(&LOGGER).is_ok();
@@ -3264,13 +3912,13 @@ fn main() {
     // C09_ONLY=<comma list> is a development aid; a partial run is never a verdict.
     let only = std::env::var("C09_ONLY").ok();
     if only.is_some() { ctx.machinery_error("C09_ONLY is set: partial run") }
-    let spaces: [(&str, fn(&Ctx)); 22] = [
+    let spaces: [(&str, fn(&Ctx)); 23] = [
         ("deltas", space_deltas), ("origins", space_origins),
         ("rt_notification", space_rt_notification), ("rt_snapshot", space_rt_snapshot), ("rt_delta", space_rt_delta),
         ("short", space_hostile_short), ("pairs", space_hostile_pairs), ("mutations", space_hostile_mutations),
         ("bombs", space_hostile_bombs), ("endless", space_hostile_endless),
         ("xml_variants", space_xml_variants), ("xml_writer", space_xml_writer), ("base64", space_base64),
-        ("scale", space_scale), ("names", space_names),
+        ("scale", space_scale), ("limits", space_limits), ("names", space_names),
         ("history", space_history), ("handed_out", space_handed_out), ("ownership", space_ownership),
         ("environment", space_environment), ("call_parameters", space_call_parameters),
         ("sinks", space_sinks), ("routes", space_routes),
@@ -3284,7 +3932,7 @@ fn main() {
     for u in RSYNC_URIS { if let Err(e) = guard(|| uri::Rsync::from_str(u).map_err(|e| e.to_string())).and_then(|r| r) { alphabet_ok = false; ctx.fail("C09.roundtrip.alphabet", u.to_string(), format!("protocol-valid rsync URI refused by uri::Rsync::from_str: {e}")) } }
     for (name, f) in spaces {
         if let Some(o) = &only { if !o.split(',').any(|x| x == name) { continue } }
-        if !alphabet_ok && ["deltas", "origins", "rt_notification", "rt_snapshot", "rt_delta", "scale", "history", "handed_out", "ownership", "environment", "call_parameters", "sinks", "routes"].contains(&name) { continue }
+        if !alphabet_ok && ["deltas", "origins", "rt_notification", "rt_snapshot", "rt_delta", "scale", "limits", "history", "handed_out", "ownership", "environment", "call_parameters", "sinks", "routes"].contains(&name) { continue }
         let t = std::time::Instant::now();
         if let Err(p) = guard(|| f(&ctx)) { ctx.machinery_error(format!("explorer code for space group {name} panicked: {p}")) }
         if std::env::var("C09_TIMING").is_ok() { eprintln!("[{name}] {:.2}s", t.elapsed().as_secs_f64()) }
